@@ -239,46 +239,56 @@ def kStatus : Bytes := bs "Grpc-Status"
 def kMessage : Bytes := bs "Grpc-Message"
 def kDetails : Bytes := bs "Grpc-Status-Details-Bin"
 
-def checkGRPCStatus (dec : Bytes → DetailsDec) (h : Hdrs) : List StFb :=
-  let statusVals := hget h kStatus
-  let (fb1, statusCode) : List StFb × Option Int :=
-    if statusVals.length > 1 then ([.multiStatus], none)
-    else match statusVals with
-      | [] => ([.noStatus], none)
-      | s :: _ =>
-        match parseInt 64 s with
-        | none => ([.badStatus], none)
-        | some code => (if code < 0 || code > 16 then [.statusRange] else [], some code)
-  let msgVals := hget h kMessage
+/-- the `grpc-status` block: feedback and the parsed code -/
+def statusPart (statusVals : List Bytes) : List StFb × Option Int :=
+  if statusVals.length > 1 then ([.multiStatus], none)
+  else match statusVals with
+    | [] => ([.noStatus], none)
+    | s :: _ =>
+      match parseInt 64 s with
+      | none => ([.badStatus], none)
+      | some code => (if code < 0 || code > 16 then [.statusRange] else [], some code)
+
+/-- the `grpc-message` block: feedback and the decoded message (`url.PathUnescape`) -/
+def messagePart (statusCode : Option Int) (msgVals : List Bytes) : List StFb × Option Bytes :=
   let fb2 : List StFb := if msgVals.length > 1 then [.multiMessage] else []
-  let (fb3, msg) : List StFb × Option Bytes :=
-    match msgVals with
-    | [] => ([], none)
-    | m :: _ =>
-      ((validateMessage m 0).map .msg
-        ++ (if statusCode == some 0 && !m.isEmpty then [.msgWithOK] else []),
-       percentDecode m)
-  let detVals := hget h kDetails
-  let fb4 : List StFb := if detVals.length > 1 then [.multiDetails] else []
-  let fb5 : List StFb :=
-    match detVals with
-    | [] => []
-    | d :: _ =>
-      match dec d with
-      | .invalid => [.detailsBadBase64]
-      | .decoded padded st =>
-        (if padded then [StFb.detailsPadded] else []) ++
-        match st with
-        | none => [.detailsUnparseable]
-        | some (code, message, hasDetails) =>
-          (match statusCode with
-            | some sc => if code != wrap32 sc then [StFb.detailsCodeMismatch] else []
-            | none => [])
-          ++ (if code == 0 && hasDetails then [.detailsWithOK] else [])
-          ++ (match msg with
-            | some m => if message != m then [.detailsMsgMismatch] else []
-            | none => [])
-  fb1 ++ fb2 ++ fb3 ++ fb4 ++ fb5
+  match msgVals with
+  | [] => (fb2, none)
+  | m :: _ =>
+    (fb2 ++ (validateMessage m 0).map .msg
+      ++ (if statusCode == some 0 && !m.isEmpty then [.msgWithOK] else []),
+     percentDecode m)
+
+/-- the `grpc-status-details-bin` block -/
+def detailsPart (dec : Bytes → DetailsDec) (statusCode : Option Int) (msg : Option Bytes)
+    (detVals : List Bytes) : List StFb :=
+  (if detVals.length > 1 then [StFb.multiDetails] else []) ++
+  match detVals with
+  | [] => []
+  | d :: _ =>
+    match dec d with
+    | .invalid => [.detailsBadBase64]
+    | .decoded padded st =>
+      (if padded then [StFb.detailsPadded] else []) ++
+      match st with
+      | none => [.detailsUnparseable]
+      | some (code, message, hasDetails) =>
+        (match statusCode with
+          | some sc => if code != wrap32 sc then [StFb.detailsCodeMismatch] else []
+          | none => [])
+        ++ (if code == 0 && hasDetails then [.detailsWithOK] else [])
+        ++ (match msg with
+          | some m => if message != m then [.detailsMsgMismatch] else []
+          | none => [])
+
+/-- `checkGRPCStatus` on the values of the three headers it reads -/
+def checkStatusCore (dec : Bytes → DetailsDec) (statusVals msgVals detVals : List Bytes) : List StFb :=
+  let sp := statusPart statusVals
+  let mp := messagePart sp.2 msgVals
+  sp.1 ++ mp.1 ++ detailsPart dec sp.2 mp.2 detVals
+
+def checkGRPCStatus (dec : Bytes → DetailsDec) (h : Hdrs) : List StFb :=
+  checkStatusCore dec (hget h kStatus) (hget h kMessage) (hget h kDetails)
 
 /-! ### the reference server's encoders -/
 
